@@ -210,9 +210,13 @@ def strip_empty_containers(root):
             return False
         return all(removable(ch) for ch in el)
 
-    changed = True
+    # a:p, a:bodyPr and a:lstStyle are content of a text body: they go only together with a whole empty body that
+    # a getter created (text_frame on a shape without one), never on their own - a blank paragraph is a blank line
+    inner_only = {"a:p", "a:bodyPr", "a:lstStyle"}
     for el in list(root.iter()):
         if el is root or el.getparent() is None:
+            continue
+        if isinstance(el.tag, str) and tagname(el) in inner_only:
             continue
         if removable(el):
             par = el.getparent()
@@ -319,6 +323,8 @@ def deck_bytes(deck):
             phs[0].left = 123456
         if len(phs) > 1:
             phs[1].width = 3456789
+        # a blank paragraph between two others (an element that is empty apart from what getters add to it)
+        prs.slides[0].shapes.add_textbox(0, 0, 914400, 914400).text_frame.text = "first\n\nthird"
         # groups moved / scaled as a whole (a:off, a:ext differ from a:chOff, a:chExt: the frame is not the members'
         # bounding box, as PowerPoint writes after the user drags or resizes a group)
         for sl in prs.slides:
@@ -331,9 +337,11 @@ def deck_bytes(deck):
         # variant of a corpus deck whose slide parts are renamed consistently (out of presentation order / gaps)
         from checks.c02 import renamed
         base, how = deck.split("|")
-        data = open(os.path.join(REPO, base), "rb").read()
+        data = deck_bytes("generated") if base == "generated" else open(os.path.join(REPO, base), "rb").read()
         if how == "orphan":
             data = orphaned_last_slide(data)
+        elif how == "nonm":
+            data = without_presentation_notes_master_rel(data)
         else:
             data = renamed(data, how) or data
     else:
@@ -354,6 +362,24 @@ def orphaned_last_slide(data):
         return data
     ids[-1].getparent().remove(ids[-1])
     pkg.set_member(pp, etree.tostring(root, xml_declaration=True, encoding="UTF-8", standalone=True))
+    return pkg.to_bytes()
+
+
+def without_presentation_notes_master_rel(data):
+    """variant of a deck with notes slides whose presentation part no longer names the notes master (relationship
+    and p:notesMasterIdLst removed); the notes slides still do, so the notes master is still a part of the package"""
+    pkg = O.Pkg.read(data)
+    pp = [r.resolved for r in pkg.rels("/") if r.type.endswith("/officeDocument")][0]
+    rels = [r for r in pkg.rels(pp)]
+    nm = [r for r in rels if r.type.endswith("/notesMaster")]
+    if not nm:
+        return data
+    root = etree.fromstring(pkg.members[pp])
+    ns = {"p": "http://schemas.openxmlformats.org/presentationml/2006/main"}
+    for el in root.findall("p:notesMasterIdLst", ns):
+        root.remove(el)
+    pkg.set_member(pp, etree.tostring(root, xml_declaration=True, encoding="UTF-8", standalone=True))
+    pkg.set_member(O.rels_name(pp), O.build_rels([(r.id, r.type, r.mode, r.target) for r in rels if r not in nm]))
     return pkg.to_bytes()
 
 
@@ -512,6 +538,7 @@ def jobs(tier):
     js = [{"decks": decks[i::16], "n": n} for i in range(16)]
     # the generated deck is the richest one: several jobs (= several seeds) of plans of its own
     js += [{"decks": ["generated"], "n": 40 if tier == "thorough" else 12} for _ in range(8 if tier == "thorough" else 4)]
+    js += [{"decks": ["generated|nonm"], "n": 40 if tier == "thorough" else 12} for _ in range(2)]
     return js
 
 
